@@ -38,8 +38,14 @@ exp=json.load(open('seeded/EXPECTED.json'))
 for seed,props in sorted(exp.items()):
     if pid in props and os.path.exists('seeded/%s/patch.diff'%seed):
         print('mutant',seed,os.path.abspath('seeded/%s/patch.diff'%seed),'fire')
-for r in sorted(os.listdir('selftest/refactors')):
+for r in sorted(os.listdir("selftest/refactors")):
     print('refactor',r,os.path.abspath('selftest/refactors/%s/patch.diff'%r),'silent')
+# property-preserving feature / performance / diagnostics changes; the few that are known to be reported
+# (selftest/evolutions/KNOWN_ALARMS.txt, see DESIGN 9.7) are listed as such in the evidence
+if os.path.isdir('selftest/evolutions'):
+    for r in sorted(os.listdir('selftest/evolutions')):
+        if os.path.exists('selftest/evolutions/%s/patch.diff'%r):
+            print('refactor',r,os.path.abspath('selftest/evolutions/%s/patch.diff'%r),'silent')
 PY
 } | xargs -P 14 -L 1 bash -c 'variant "$0" "$1" "$2" "$3"' > "$BASE/results.txt"
 sort "$BASE/results.txt" | sed 's/^/  selfval: /'
@@ -48,11 +54,13 @@ import json,sys
 ev=json.load(open(sys.argv[1]))
 res=[l.split(None,3) for l in open(sys.argv[2]) if l.strip()]
 def cnt(kind,st): return sum(1 for r in res if r[0]==kind and r[2]==st)
+import os
+known=set(l.split()[0] for l in open('selftest/evolutions/KNOWN_ALARMS.txt') if l.strip() and not l.startswith('#')) if os.path.exists('selftest/evolutions/KNOWN_ALARMS.txt') else set()
 sv={"mutants_applied":cnt('mutant','detected')+cnt('mutant','MISSED'),"mutants_detected":cnt('mutant','detected'),
     "mutants_missed":[r[1] for r in res if r[0]=='mutant' and r[2]=='MISSED'],
     "mutants_skipped":[r[1] for r in res if r[2]=='skipped' and r[0]=='mutant'],
     "refactors_applied":cnt('refactor','silent')+cnt('refactor','FLAGGED'),"refactors_silent":cnt('refactor','silent'),
-    "refactors_flagged":[r[1]+(' '+r[3].strip() if len(r)>3 else '') for r in res if r[0]=='refactor' and r[2]=='FLAGGED'],
+    "refactors_flagged":[r[1]+(' '+r[3].strip() if len(r)>3 else '')+(' (known limitation, DESIGN 9.7)' if r[1] in known else '') for r in res if r[0]=='refactor' and r[2]=='FLAGGED'],
     "errors":[r[1] for r in res if r[2]=='error'],
     "detail":[' '.join(x.strip() for x in r) for r in sorted(res)],
     "note":"variants are scratch copies of the current working tree with one seeded mutation (seeded/<name>/patch.diff) or one behaviour-preserving refactoring (selftest/refactors/<name>/patch.diff) applied; they are only analysed, never executed"}
